@@ -174,6 +174,15 @@ def run(tier, seed, factor=1):
                          db=rnd.choice(["RuleDB", "RuleDBForgetStrategy", "RuleDBForest"]), seed=rnd.randrange(10**6), perc=rnd.choice([100, 20, 1]),
                          smallest=False, expand_verified=False))
     cfgs += [specrun.perm_config(rnd) for _ in range(max(16, len(cfgs) // 10))]  # paths whose backward maps do not commute
+    # weighted statistics (an occurrence counts twice): parameter values larger than the size of the object
+    wrnd = random.Random(seed * 7919 + 88)
+    for _ in range(max(16, len(cfgs) // 10)):
+        c = specrun.rand_config(wrnd, None)
+        c.update(params=wrnd.choice([[("k_0", "A", 0)], [("k_0", "A", 0), ("k_1", "b", 0)], [("k_0", "A", 0), ("k_1", "a", 1)], [("k_0", "B", 1)]]),
+                 mode=wrnd.choice(["", "rename", "merge rename", "drop"]), prefver=None, packver=None, factory=None, rot=False, sep=None,
+                 reverse_needed=False, symmetry=False, iterative=False, prefix="")
+        c["params"] = [p for p in c["params"] if p[1].lower() in c["alpha"]]
+        cfgs.append(c)
     outs = specrun.pool_map(spec_worker, [(c, N) for c in cfgs])
     specrun.quiet()
     for o in outs:
